@@ -19,6 +19,7 @@ def Inv : Expr F → Cache → Prop
   | .call2 _ a b, c => Inv a c.k1 ∧ Inv b c.k2
   | .call3 _ a b d, c => Inv a c.k1 ∧ Inv b c.k2 ∧ Inv d c.k3
   | .call4 _ a b d e, c => Inv a c.k1 ∧ Inv b c.k2 ∧ Inv d c.k3a ∧ Inv e c.k3b
+  | .lam _ e, c => Inv e c.k1
   | _, _ => True
 
 @[simp] theorem k1_setK1 (c k : Cache) : (c.setK1 k).k1 = k := rfl
@@ -61,6 +62,7 @@ theorem compile_inv (e : Expr F) : Inv ctx e (compileCache ctx e) := by
     · rename_i h; exact ⟨Or.inl h, by simpa using ihl, by simpa using ihr⟩
     · exact ⟨Or.inr (by simp), by simpa using ihl, by simpa using ihr⟩
   | un op e ih => simpa [compileCache, Inv] using ih
+  | lam i e ih => simpa [compileCache, Inv] using ih
   | call1 fn a ih => simpa [compileCache, Inv] using ih
   | call2 fn a b iha ihb => exact ⟨by simpa [compileCache] using iha, by simpa [compileCache] using ihb⟩
   | call3 fn a b d iha ihb ihd =>
@@ -85,6 +87,12 @@ theorem typeW_inv (e : Expr F) : ∀ c, Inv ctx e c → Inv ctx e (typeW ctx σ 
       · exact ⟨by simpa using h1, by simpa using ihl _ h2, by simpa using h3⟩
       · exact ⟨by simpa using h1, by simpa using ihl _ h2, by simpa using ihr _ h3⟩
   | un op e ih =>
+    intro c h
+    simp only [typeW]
+    split
+    · exact h
+    · simpa [Inv] using ih _ h
+  | lam i e ih =>
     intro c h
     simp only [typeW]
     split
@@ -141,6 +149,20 @@ theorem evalC_eq_evalN (e : Expr F) : ∀ (w : Ty) (c : Cache) (st : FnState F),
   | ref n => intro w c st h; simp only [evalC, evalN]; split <;> simp [Inv]
   | call0 fn => intro w c st h; simp [evalC, evalN, Inv]
   | callMany fn => intro w c st h; simp [evalC, evalN, Inv]
+  | lam i e ih =>
+    intro w c st h
+    have hc1 := typeW_inv ctx σ (.lam i e) c h
+    have hi := ih w (typeW ctx σ (.lam i e) c).k1 (st.enter i) hc1
+    simp only [evalC, evalN]
+    split
+    · exact ⟨rfl, rfl, hc1⟩
+    · split
+      · obtain ⟨h1, h2, h3⟩ := hi
+        refine ⟨?_, ?_, ?_⟩
+        · simp only [h1]
+        · simp only [h2]
+        · simpa [Inv] using h3
+      · exact ⟨rfl, rfl, hc1⟩
   | un op e ih =>
     intro w c st h
     have hc1 := typeW_inv ctx σ (.un op e) c h
